@@ -3,9 +3,11 @@
    arbitrary predicate `valid`. `allowed acc rules req p`: p is the filled storage path of a rule of the view that
    matches the request req and grants access acc.
    PARTIAL overall: the model (and so every theorem) covers requests whose matching rules leave no unfilled
-   {placeholder} in the unmatched suffix / storage path (otherwise set_writes / unset_paths / view_get answer
-   RUnsupported). Not proved: read-after-write through a read-write rule (C30_read_after_write of DESIGN.md) and the
-   bare-databag partial-write counterexample; both are exercised by the differential run only. *)
+   {placeholder} in the unmatched suffix / storage path, and Sets whose non-empty unmatched suffixes are not prefixes
+   of one another (otherwise set_writes / unset_paths / view_get answer RUnsupported). Read-after-write is proved at
+   the storage level for every accepted Set (nested storage paths included) and through the view for a request matched
+   by one literal read-write rule; the general view-level statement (several rules, merge of namespaces) and the
+   bare-databag partial-write counterexample are not proved - the differential run and the read-back monitor cover them. *)
 From Coq Require Import List NArith ZArith Bool.
 Import ListNotations.
 Require Import V.lib.JsonTree V.models.Registry V.proofs.RegistryProofs.
@@ -56,7 +58,51 @@ Theorem C30_commit_order_no_lost_update : forall valid t1 t2 b b1 b2,
 Proof. exact commit_order_no_lost_update. Qed.
 Print Assumptions C30_commit_order_no_lost_update.
 
+(* the sort-order lemma: the writes of one accepted Set are performed in storage-path order, so a write never comes
+   after a write to a path strictly below it (outer path first) *)
+Theorem C30_outer_written_before_inner : forall rules req v ws ws1 d ws2 d',
+  set_writes rules req v = (ROk, ws) -> ws = ws1 ++ d :: ws2 -> In d' ws2 ->
+  is_prefix (fst d') (fst d) = true -> fst d' = fst d.
+Proof. exact outer_written_before_inner. Qed.
+Print Assumptions C30_outer_written_before_inner.
+
+(* read-after-write at the storage level, nested storage paths included: once the writes of an accepted Set (all
+   non-null) are applied in order to ANY databag, every written storage path that no later write of the same Set
+   touches (equal or below) holds exactly the value written to it, nulls stripped. With rules a.b -> p.q and
+   a.c -> p this says p.q still holds the b-value after p was written. *)
+Theorem C30_read_after_write_storage : forall rules req v ws b,
+  set_writes rules req v = (ROk, ws) -> Forall is_set ws ->
+  exists b', apply_deltas b ws = Some b' /\
+    forall ws1 d ws2, ws = ws1 ++ d :: ws2 ->
+      (forall d', In d' ws2 -> is_prefix (fst d) (fst d') = false) ->
+      bag_get (fst d) b' = BOk (strip (snd d)).
+Proof. exact storage_read_after_write. Qed.
+Print Assumptions C30_read_after_write_storage.
+
+(* read-after-write through the view - PARTIAL. Full statement (DESIGN.md): after a successful set of v through
+   read-write rules, get of the same request returns v. Proved: for a request matched in full by exactly one literal
+   read-write rule (no other rule matches it, not even as a prefix), inside a transaction whose pending deltas apply
+   cleanly. Missing: several matching rules (needs: merging the namespaced values of all matches rebuilds v, which
+   does not even hold for nested storage paths, where the outer rule also returns the inner rule's data). *)
+Theorem C30_read_after_write_partial : forall rules req v sp p t b,
+  matches writeable rules req = [(sp, [])] -> matches readable rules req = [(sp, [])] ->
+  lits sp = Some p -> p <> [] -> v <> Null ->
+  apply_deltas (tx_pristine t) (tx_deltas t) = Some b ->
+  set_writes rules req v = (ROk, [(p, v)]) /\
+  view_get rules (tx_get (add_deltas t [(p, v)])) req = VOk (strip v).
+Proof. exact view_read_after_write. Qed.
+Print Assumptions C30_read_after_write_partial.
+
 (* ---- non-vacuity *)
+Definition ex_nested : list rule := [mkRule [Lit 97; Lit 98] [Lit 112; Lit 113] RW; mkRule [Lit 97; Lit 99] [Lit 112] RW].
+(* a.b -> p.q (smaller request, inner path), a.c -> p: the outer path p is written first *)
+Example ex_nested_order :
+  set_writes ex_nested [97] (Obj [(98, Atom 1%Z); (99, Obj [(100, Atom 2%Z)])]) =
+  (ROk, [([112], Obj [(100, Atom 2%Z)]); ([112; 113], Atom 1%Z)]).
+Proof. reflexivity. Qed.
+Example ex_nested_readback :
+  view_get ex_nested (tx_get (mkTx [] [([112], Obj [(100, Atom 2%Z)]); ([112; 113], Atom 1%Z)])) [97; 98] = VOk (Atom 1%Z).
+Proof. reflexivity. Qed.
 Definition ex_rules : list rule :=
   [mkRule [Lit 97] [Lit 112] WO; mkRule [Lit 98] [Lit 112] RO; mkRule [Lit 99; Ph 120] [Lit 113; Ph 120] RW].
 Example ex_write_only_not_readable : view_get ex_rules (fun _ => BOk (Atom 1%Z)) [97] = VErr RNotFound.
